@@ -121,6 +121,9 @@ class AsyncioTransportStreamSocketAdapter(AsyncStreamTransport):
 
     async def send_all_from_iterable(self, iterable_of_data: Iterable[bytes | bytearray | memoryview]) -> None:
         self.__transport.writelines(iterable_of_data)
+        # Some asyncio versions do not notify the protocol (pause_writing()) after writelines(), unlike write():
+        # re-applying the limits makes the transport check its buffer size, so writer_drain() really waits.
+        self.__transport.set_write_buffer_limits(0)
         await self.__protocol.writer_drain()
 
     async def send_eof(self) -> None:
